@@ -7,13 +7,17 @@
    quic-go behind the gate. *)
 From Coq Require Import List NArith ZArith Bool Arith.
 From Coq.Strings Require Import Byte.
-From L4.gen Require Import Consts.
+From L4.gen Require Import Consts Shape.
 From L4.model Require Import GoBase.
 Import ListNotations.
 
 Definition dns_hdr : nat := Z.to_nat l4dns_dnsHeaderBytes.
-Definition dns_max_msg : nat := N.to_nat 65535.   (* miekg/dns MaxMsgSize; tied by the engine's constants case *)
-Definition dns_min_msg : nat := 512.     (* miekg/dns MinMsgSize (size of the UDP read chunk) *)
+Definition dns_max_msg : nat := N.to_nat 65535. (* the largest DNS message (16-bit length; miekg/dns MaxMsgSize) *)
+(* the bounds the source compares with, read from the source by the translator (gen/Shape.v): the constant named in
+   `msgBytes > ...` of the TCP branch and in `n > ...` of the UDP branch *)
+Definition dns_tcp_limit : nat := Z.to_nat l4dns_tcp_size_limit.
+Definition dns_udp_limit : nat := Z.to_nat l4dns_udp_size_limit.
+Definition dns_min_msg : nat := Z.to_nat l4dns_udp_chunk.   (* size of the UDP read chunk (miekg/dns MinMsgSize) *)
 
 (* what the matcher looks at in the unpacked message *)
 Record question := {
@@ -104,7 +108,7 @@ Section Dns.
       | None => More
       | Some (lb, r1) =>
           let l := N.to_nat (be_N lb) in
-          if (l <? dns_hdr)%nat || (dns_max_msg <? l)%nat then No else
+          if (l <? dns_hdr)%nat || (dns_tcp_limit <? l)%nat then No else
           match read_full l r1 with                 (* make([]byte, msgBytes); io.ReadFull *)
           | None => More
           | Some (buf, r2) =>
@@ -119,7 +123,7 @@ Section Dns.
       | None => More
       | Some (_, _) =>
           (* the ReadAtLeast(tmpBuf, 1) loop drains whatever is buffered: msgBuf = p, n = len p *)
-          if (dns_max_msg <? length p)%nat then No else dns_decide c p (u16 (length p))
+          if (dns_udp_limit <? length p)%nat then No else dns_decide c p (u16 (length p))
       end.
 
   (* make() sizes: TCP msgBuf + extraBuf; UDP header buffer + tmpBuf + the appended copy (amortised <= 2x) *)
